@@ -555,11 +555,23 @@ class Exec:
 
     def operand(self, st, txt):
         txt = txt.strip()
-        pm = re.match(r'^const (.+?)(?:::<.*>)?::promoted\[(\d+)\]$', txt)
+        pm = re.match(r'^const (.+)::promoted\[(\d+)\]$', txt)
         if pm:
-            suffix = pm.group(1).split('::')[-1] + f'::promoted[{pm.group(2)}]'
+            flat = ''
+            dd = 0
+            for ch in pm.group(1):
+                if ch == '<':
+                    dd += 1
+                elif ch == '>':
+                    dd -= 1
+                elif dd == 0:
+                    flat += ch
+            segs = [x for x in flat.split('::') if re.match(r'^\w+$', x)]
+            fname_ = segs[-1] if segs else ''
+            suffix = fname_ + f'::promoted[{pm.group(2)}]'
             cands = [n for n in self.funcs if n == suffix or n.endswith('::' + suffix)]
-            own = [n for n in cands if n.startswith(self.curf.name.split('::{')[0])] or cands
+            first = self.curf.name.split('::')[0]
+            own = [n for n in cands if n.startswith(self.curf.name.split('::{')[0])] or [n for n in cands if n.startswith(first + '::')] or cands
             if len(own) != 1:
                 raise Refuse(f'promoted constant {txt}: {cands}')
             pf = self.funcs[own[0]]
